@@ -496,73 +496,185 @@ func init() {
 }
 
 // ---------------------------------------------------------------------------
-// family "mxj" (C18, integrated): a history of setter calls (random walk of the integrated
-// specification Mxj.tla), after which the real decoders and encoders must produce what the codec
-// specifications predict for the registers the walk ended in.
+// family "mxj" (integrated specification Mxj.tla): a SESSION -- setter calls interleaved with operation
+// calls on fixed probe inputs; after every operation call the real result is compared with the
+// result the specification recorded for that step (a function of the registers at that point).
 // ---------------------------------------------------------------------------
+type mxjStep struct {
+	Fn  string          `json:"fn,omitempty"`
+	Arg string          `json:"arg"`
+	Op  string          `json:"op,omitempty"`
+	R   json.RawMessage `json:"r,omitempty"`
+}
 type mxjLine struct {
-	F           string     `json:"f"`
-	Hist        []optCall  `json:"hist"`
-	Dec         *tagged.TV `json:"dec"`
-	CastDefault bool       `json:"castdefault"`
-	DecCast     *tagged.TV `json:"deccast"`
-	Seq         *tagged.TV `json:"seq"`
-	Enc         string     `json:"enc"`
-	Restore     []optCall  `json:"restore"`
+	F       string    `json:"f"`
+	Hist    []mxjStep `json:"hist"`
+	Restore []optCall `json:"restore"`
 }
 
 const mxjProbeDoc = `<D-a x-Y="1" B=" &amp;">` + "\n" + `<e-f> 7 </e-f><e-f>&lt;v</e-f><g/><h k="q">true</h>` + "\n" + `</D-a>`
 const mxjProbeSeqDoc = `<p:A z-z="1"><!--c--><B-c> v </B-c><d>&lt;7</d></p:A>`
+
+func mxjProbeMap() mxj.Map {
+	return mxj.Map{"doc": map[string]interface{}{"-x": "1", "@y": "2", "#text": "t<", "_text": "u",
+		"e": []interface{}{"a", "", map[string]interface{}{"-k": "v"}}, "g": map[string]interface{}{}}}
+}
+func mxjLeafMap() mxj.Map {
+	return mxj.Map{"doc": map[string]interface{}{"-x": "1", "@y": "2", "#text": "t", "_text": "u",
+		"e": []interface{}{"a", map[string]interface{}{"-k": "v", "#text": "w"}, "b", map[string]interface{}{"f": []interface{}{"c", "d"}}}}}
+}
+func mxjQueryMap() mxj.Map {
+	return mxj.Map{"a": []interface{}{
+		map[string]interface{}{"id": "1", "c": "x"},
+		map[string]interface{}{"id": "2", "c": "x:x"},
+		map[string]interface{}{"id": "3", "c": "x|x"},
+		map[string]interface{}{"id": "4", "c|x": "x"},
+		map[string]interface{}{"id": "5", "c:x": "x"},
+		map[string]interface{}{"id": "6", "x": "c"}}}
+}
+
+// runs one operation of a session on the real package and returns a canonical rendering of its result,
+// together with the canonical rendering of the specification's result r
+func mxjOp(st mxjStep) (name, got, want string) {
+	switch st.Op {
+	case "dec":
+		var tv tagged.TV
+		if err := json.Unmarshal(st.R, &tv); err != nil {
+			panic(err)
+		}
+		var m mxj.Map
+		var err error
+		if st.Arg == "cast" {
+			name = "NewMapXml(probe, true)"
+			m, err = mxj.NewMapXml([]byte(mxjProbeDoc), true)
+		} else {
+			name = "NewMapXml(probe)"
+			m, err = mxj.NewMapXml([]byte(mxjProbeDoc))
+		}
+		return name, tagged.CanonGo(m) + fmt.Sprint(err), tv.Norm() + "<nil>"
+	case "seq":
+		var tv tagged.TV
+		if err := json.Unmarshal(st.R, &tv); err != nil {
+			panic(err)
+		}
+		ms, err := mxj.NewMapXmlSeq([]byte(mxjProbeSeqDoc))
+		return "NewMapXmlSeq(probe)", tagged.CanonGo(map[string]interface{}(ms)) + fmt.Sprint(err), tv.Norm() + "<nil>"
+	case "enc":
+		var x string
+		if err := json.Unmarshal(st.R, &x); err != nil {
+			panic(err)
+		}
+		// (the probe text is not escaped in some register states: bytes are compared, not validity)
+		cv := mxj.VerifOptions()["checkValid"].(bool)
+		mxj.XmlCheckIsValid(false)
+		b, err := mxjProbeMap().Xml()
+		mxj.XmlCheckIsValid(cv)
+		if x == "!ERR" {
+			return "Map.Xml(probe) error class", cls(err), "err"
+		}
+		return "Map.Xml(probe)", string(b) + fmt.Sprint(err), x + "<nil>"
+	case "leaf":
+		var exp []leafExp
+		if err := json.Unmarshal(st.R, &exp); err != nil {
+			panic(err)
+		}
+		ln := mxjLeafMap().LeafNodes(st.Arg == "T")
+		g := make([]string, len(ln))
+		for i, n := range ln {
+			g[i] = n.Path + " = " + tagged.CanonGo(n.Value)
+		}
+		w := make([]string, len(exp))
+		for i, e := range exp {
+			w[i] = e.P + " = " + e.V.Norm()
+		}
+		sort.Strings(g)
+		sort.Strings(w)
+		return "LeafNodes(" + st.Arg + ")", strings.Join(g, "; "), strings.Join(w, "; ")
+	case "cast":
+		var exp []string
+		if err := json.Unmarshal(st.R, &exp); err != nil {
+			panic(err)
+		}
+		name = fmt.Sprintf("leaf of NewMapXml(<r><c>%s</c></r>, true)", st.Arg)
+		m, err := mxj.NewMapXml([]byte("<r><c>"+st.Arg+"</c></r>"), true)
+		if err != nil {
+			return name, "error " + err.Error(), expTok(exp)
+		}
+		v := interface{}(nil)
+		if r, ok := m["r"].(map[string]interface{}); ok {
+			v = r["c"]
+			if cm, ok := v.(map[string]interface{}); ok { // simple values as map / sequence numbers: the text entry
+				v = cm[mxj.VerifOptions()["textK"].(string)]
+			}
+		}
+		return name, leafTok(v), expTok(exp)
+	case "query":
+		var exp struct {
+			Ok   bool         `json:"ok"`
+			Vals []*tagged.TV `json:"vals"`
+		}
+		if err := json.Unmarshal(st.R, &exp); err != nil {
+			panic(err)
+		}
+		vals, err := mxjQueryMap().ValuesForKey("a", st.Arg)
+		name = fmt.Sprintf("ValuesForKey(\"a\", %q)", st.Arg)
+		if !exp.Ok {
+			return name + " error class", cls(err), "err"
+		}
+		g := tagged.CanonList(vals)
+		w := tagged.NormList(exp.Vals)
+		sort.Strings(g)
+		sort.Strings(w)
+		return name, strings.Join(g, "; ") + fmt.Sprint(err), strings.Join(w, "; ") + "<nil>"
+	}
+	panic("unknown operation " + st.Op)
+}
 
 func replayMxj(line []byte, a *Acc) {
 	var l mxjLine
 	if err := json.Unmarshal(line, &l); err != nil {
 		panic(err)
 	}
+	n, setters := 0, 0
 	hs := []string{}
-	for _, c := range l.Hist {
-		hs = append(hs, c.Fn+"("+c.Arg+")")
-	}
-	one := func(sig, detail string) { a.Mis(sig, "after "+strings.Join(hs, " ")+": "+detail, l) }
-	for _, c := range l.Hist {
-		applyCall(c.Fn, c.Arg)
-	}
-	n := 0
-	chk := func(name string, got, want string) {
-		n++
-		if got != want {
-			one("mxj:"+name, fmt.Sprintf("%s = %s, the codec specification under the current registers gives %s", name, short(got), short(want)))
+	reported := map[string]bool{}
+	for _, st := range l.Hist {
+		if st.Op == "" {
+			applyCall(st.Fn, st.Arg)
+			hs = append(hs, st.Fn+"("+st.Arg+")")
+			setters++
+			continue
 		}
-	}
-	m, err := mxj.NewMapXml([]byte(mxjProbeDoc))
-	chk("NewMapXml", tagged.CanonGo(m)+fmt.Sprint(err), l.Dec.Norm()+"<nil>")
-	if l.CastDefault {
-		m, err = mxj.NewMapXml([]byte(mxjProbeDoc), true)
-		chk("NewMapXml(cast)", tagged.CanonGo(m)+fmt.Sprint(err), l.DecCast.Norm()+"<nil>")
-	}
-	ms, err := mxj.NewMapXmlSeq([]byte(mxjProbeSeqDoc))
-	chk("NewMapXmlSeq", tagged.CanonGo(map[string]interface{}(ms))+fmt.Sprint(err), l.Seq.Norm()+"<nil>")
-	pm := mxj.Map{"doc": map[string]interface{}{"-x": "1", "@y": "2", "#text": "t<", "_text": "u",
-		"e": []interface{}{"a", "", map[string]interface{}{"-k": "v"}}, "g": map[string]interface{}{}}}
-	mxj.XmlCheckIsValid(false) // (the probe text is not escaped in some register states: bytes are compared, not validity)
-	b, err := pm.Xml()
-	wantErr := l.Enc == "!ERR"
-	if wantErr {
-		chk("Map.Xml(error class)", cls(err), "err")
-	} else {
-		chk("Map.Xml", string(b)+fmt.Sprint(err), l.Enc+"<nil>")
+		n++
+		var name, got, want string
+		if p := guard(func() { name, got, want = mxjOp(st) }); p != "" {
+			if strings.Contains(p, "unknown operation") || strings.Contains(p, "json:") {
+				panic(p)
+			}
+			a.Mis("mxj:panic:"+st.Op, "after "+strings.Join(hs, " ")+": "+st.Op+"("+st.Arg+"): "+p, l)
+			break
+		}
+		hs = append(hs, st.Op+"["+st.Arg+"]")
+		if got != want && !reported[st.Op] {
+			reported[st.Op] = true
+			a.Mis("mxj:"+st.Op, fmt.Sprintf("session %s: %s = %s, the specification under the registers of that step gives %s", strings.Join(hs, " "), name, short(got), short(want)), l)
+		}
 	}
 	for _, c := range l.Restore {
 		applyCall(c.Fn, c.Arg)
 	}
 	mxj.SetCheckTagToSkipFunc(nil)
-	a.Count(n, n)
-	if len(l.Hist) > 5 {
-		a.Sample(map[string]interface{}{"history": hs, "expected_decode": l.Dec.Norm(), "expected_xml": l.Enc})
+	nt := 0
+	if setters > 0 {
+		nt = n
+	}
+	a.Count(n, nt)
+	if len(l.Hist) > 3 && n > 1 && setters > 1 {
+		a.Sample(map[string]interface{}{"session": hs})
 	}
 }
 
 func init() {
 	register("mxj", &family{replay: replayMxj, serial: true,
-		rule: "one case = one codec call (NewMapXml, NewMapXml with cast, NewMapXmlSeq, Map.Xml) after a random history of 12 setter calls, compared with the codec specification evaluated under the registers the history ends in; all cases non-trivial"})
+		rule: "one case = one operation call (NewMapXml, NewMapXml with cast, NewMapXmlSeq, Map.Xml, LeafNodes, ValuesForKey with a sub-key string) inside a session of setter and operation calls, compared with the specification's result under the registers of that step; non-trivial = the session contains setter calls"})
 }
